@@ -80,7 +80,8 @@ LEVEL_NOTE = ("Trusted: Lean kernel, harness + watchdog, the python framing pars
               "serveLoopAt (the at= observable) is K-only, tied to serveLoop by serveLoopAt_loop. isFieldName is RFC 7230 `token` widened by the delimiters \"(),/;<=>?@[\\]{} and bytes >= 0x80, which the library accepts in field names (they hide no framing header). Repeated header fields keep the last value (single-valued Dic interface; outside_findings.txt): the oracle gives no opinion on streams that repeat Content-Length/Transfer-Encoding. Folded header lines are joined to the "
               "field value with one space (350c8ee) and received empty values are kept (988a64d); query tokens without `=` are "
               "dropped by Url::parseQuery by design (outside_findings.txt). Chunk framing is validated (4dbedbe, d0ace7d): size lines are 1-8 hex digits (<= 0x7fffffff) + blanks/;ext, each chunk must "
-              "end in CRLF, trailer fields are not supported (such a request is dropped). "
+              "end in CRLF, trailer fields are not supported (such a request is dropped); a size line with an extension may end in a bare LF (`5;x LF` is taken, `5 LF` is refused: "
+              "the framing oracle has no opinion on bare-LF size lines, RFC 7230 3.5; outside_findings.txt). "
               "Range/If-Modified-Since handling of the file server is covered by the safety oracle of the `file` op only (no byte "
               "from outside the root, legal status codes, ASan); plain GET mapping is model-checked by `fmap`. Partial: the header "
               "hypotheses of the faithful-read theorems are stated on hdrDic (the fold), the sorted-map lemma `other keys unaffected` "
@@ -1045,7 +1046,13 @@ def _frame(s):
             m = re.fullmatch(rb"([0-9a-fA-F]{1,8})[ \t]*(?:;[^\n]*)?\r", s[pos:j])
             if not m and re.fullmatch(rb"[0-9a-fA-F]{1,8}[ \t]*\r[^\n]+", s[pos:j]) and b"\x00" not in s[pos:j]:
                 return None          # a size line with bytes between its CR and the LF: line-ending leniency, no opinion
-            if not m or int(m.group(1), 16) > 0x7fffffff or b"\x00" in s[pos:j]:
+            if not m and re.fullmatch(rb"[0-9a-fA-F]{1,8}[ \t]*(?:;[^\n]*)?", s[pos:j]):
+                # a well-formed size line ended by a bare LF: a recipient MAY take a single LF for the line end (RFC 7230 3.5),
+                # as this oracle does for the request line and the header lines: no opinion (the library takes `5;ext LF`
+                # and refuses `5 LF`; both are allowed by the property)
+                return None
+            # (what a chunk extension holds is not judged: it is skipped whatever its bytes, a NUL included)
+            if not m or int(m.group(1), 16) > 0x7fffffff:
                 return "incomplete"
             n = int(m.group(1), 16)
             pos = j + 1
